@@ -1,0 +1,18 @@
+//go:build verif
+
+package node
+
+// Test-only exports for the /verif harness (compiled only with -tags verif):
+// the unexported summary-statistics helpers used by ReportResults.
+
+func VerifFindMedianAndSplitData(values []int) (float64, []int, []int) {
+	return findMedianAndSplitData(values)
+}
+
+func VerifFindLowestAndOutliers(lowerFence float64, set []int) (int, int) {
+	return findLowestAndOutliers(lowerFence, set)
+}
+
+func VerifFindHighestAndOutliers(upperFence float64, set []int) (int, int) {
+	return findHighestAndOutliers(upperFence, set)
+}
